@@ -1363,6 +1363,7 @@ class nx_action_learn (of.ofp_action_vendor_base):
             self.fin_hard_timeout) = of._unpack('!HHHHQHBBHH', raw, offset)
     avail -= (2+2+2+2+8+2+1+1+2+2)
     assert (avail & 1) == 0
+    self.spec = flow_mod_spec_chain()
     while avail > 0:
       newoff, fms = flow_mod_spec.unpack_new(raw, offset)
       if fms is None: break
